@@ -311,7 +311,7 @@ func raceLogTail(from int64) string {
 	}
 	defer f.Close()
 	f.Seek(from, io.SeekStart)
-	b, _ := io.ReadAll(io.LimitReader(f, 60000))
+	b, _ := io.ReadAll(io.LimitReader(f, 8<<20))
 	return string(b)
 }
 
@@ -327,6 +327,17 @@ func libraryRaces(rep string) string {
 			continue
 		}
 		lines := strings.Split(blk, "\n")
+		// a report cut short (read while it was being written, or beyond the read limit) names no function at
+		// all: it cannot be attributed to anybody and is not evidence of anything
+		frames := false
+		for _, ln := range lines {
+			if l := strings.TrimSpace(ln); strings.HasSuffix(l, ")") && strings.Contains(l, ".") && !strings.HasPrefix(l, "/") && !strings.Contains(l, " ") {
+				frames = true
+			}
+		}
+		if !frames {
+			continue
+		}
 		harness := false
 		for i, ln := range lines {
 			l := strings.TrimSpace(ln)
@@ -398,15 +409,15 @@ type TaskEntropy struct {
 	// ambiguous: a task drew entropy while another task of the same family (a goroutine the library
 	// started on behalf of the same API call, or its parent) could run: the order of the draws is then
 	// a scheduling accident and bit-for-bit comparison with a solo execution is not defined
-	ambiguous bool
+	ambiguous atomic.Bool
 	// stallAt / stallFor: the stallAt-th Read (counted over all streams) takes stallFor of real time
 	stallAt  int
 	stallFor time.Duration
-	nReads   int
+	nReads   atomic.Int64
 }
 
 // Ambiguous: see the field.
-func (e *TaskEntropy) Ambiguous() bool { return e.ambiguous }
+func (e *TaskEntropy) Ambiguous() bool { return e.ambiguous.Load() }
 
 func NewTaskEntropy(t *core.Tape, n int, short bool) *TaskEntropy {
 	e := &TaskEntropy{short: short, solo: 0}
@@ -479,13 +490,19 @@ func (e *TaskEntropy) Read(p []byte) (int, error) {
 		// goroutines the library started on behalf of an API call draw from that call's stream
 		if verifsim.NumTasks() > len(e.streams)-1 {
 			if verifsim.FamilyConcurrent(id) {
-				e.ambiguous = true
+				verifsim.RaceOff()
+				e.ambiguous.Store(true)
+				verifsim.RaceOn()
 			}
 			id = verifsim.RootOf(id)
 		}
 	}
-	e.nReads++
-	if e.stallAt > 0 && e.nReads == e.stallAt {
+	// (a counter all tasks share: harness memory - atomic, and with synchronisation events switched off so that it orders nothing)
+	verifsim.RaceOff()
+	nr := e.nReads.Add(1)
+	stall := e.stallAt > 0 && int(nr) == e.stallAt
+	verifsim.RaceOn()
+	if stall {
 		time.Sleep(e.stallFor)
 	}
 	n := len(p)
